@@ -55,7 +55,7 @@ def geodetic_lat(point, a=A, b=B):
         phi = geod_lat
         C = 1 / np.sqrt(1 - e2 * np.sin(phi)**2)
         geod_lat = np.arctan2(z + a * C * e2 * np.sin(phi), r)
-        if np.allclose(geod_lat, phi):
+        if np.allclose(geod_lat, phi, equal_nan=True):
             return geod_lat
 
 
@@ -198,7 +198,7 @@ def get_lonlatalt(pos, utc_time):
         lat2 = lat
         c = 1 / (np.sqrt(1 - e2 * (np.sin(lat2) ** 2)))
         lat = np.arctan2(pos_z + c * e2 * np.sin(lat2), r)
-        if np.all(abs(lat - lat2) < 1e-10):
+        if np.all((abs(lat - lat2) < 1e-10) | np.isnan(lat)):
             break
     alt = r / np.cos(lat) - c
     alt *= A
